@@ -605,6 +605,32 @@ benign(
     runs=120,
 )
 benign(
+    "c01-buffered-pool-fork-safe",
+    "C01",
+    "bits/ecmath.py",
+    """        k = secrets.randbelow(N)
+        while not k:
+            k = secrets.randbelow(N)
+""",
+    """        import threading as _th
+
+        _pool = sign.__dict__.setdefault("_pool", {"buf": b"", "lock": _th.Lock()})
+        if "hooked" not in _pool:
+            import os as _os
+
+            _pool["hooked"] = True
+            _os.register_at_fork(after_in_child=lambda: _pool.update(buf=b""))
+        k = 0
+        while not 0 < k < N:
+            with _pool["lock"]:
+                if len(_pool["buf"]) < 32:
+                    _pool["buf"] += secrets.token_bytes(1024)
+                k = int.from_bytes(_pool["buf"][:32], "big")
+                _pool["buf"] = _pool["buf"][32:]
+""",
+    runs=400,
+)
+benign(
     "c03-rejection-sampling",
     "C03",
     "bits/keys.py",
